@@ -29,6 +29,10 @@ type scriptCase struct {
 	// FixedPrev: the spent outpoint is a constant instead of the id of a credit transaction
 	// that contains the locking script (needed when a signature sits inside the script it signs)
 	FixedPrev bool `json:"fixed_prevout,omitempty"`
+	// PrevStale: the checked input of the transaction handed to Execute already records a spent
+	// output - another script and another value, as left by FromUTXOs or by an earlier Execute
+	// against another output; only the output handed to WithTx counts
+	PrevStale bool `json:"stale_prev_on_input,omitempty"`
 }
 
 func (c scriptCase) idx() int {
@@ -60,6 +64,8 @@ func (c scriptCase) ctx() (*txref.Tx, uint64) {
 	return tx, amount
 }
 
+const staleDelta = 4321
+
 type libSnap struct {
 	Stack, Alt [][]byte
 }
@@ -72,6 +78,19 @@ type recorder struct {
 	scribble bool
 	states   int
 	badState string // first snapshot whose indices are inconsistent
+	// stack items of the snapshots handed to the first callbacks, kept as handed (held) and as
+	// copied at that moment (was): a snapshot a debugger keeps must not change afterwards
+	held, was [][]byte
+}
+
+// retainedChanged reports a kept snapshot item that no longer has the bytes it was handed over with.
+func (r *recorder) retainedChanged() string {
+	for i := range r.held {
+		if !bytes.Equal(r.held[i], r.was[i]) {
+			return fmt.Sprintf("stack item %x of an earlier snapshot now reads %x", r.was[i], r.held[i])
+		}
+	}
+	return ""
 }
 
 func (r *recorder) see(s *interpreter.State) {
@@ -89,6 +108,16 @@ func (r *recorder) see(s *interpreter.State) {
 			if s.OpcodeIdx >= 0 {
 				_ = s.Opcode().Name()
 				_ = len(s.RemainingScript())
+			}
+		}
+	}
+	if !r.scribble && s != nil && r.states <= 96 && len(s.DataStack)+len(s.AltStack) <= 32 {
+		for _, st := range [][][]byte{s.DataStack, s.AltStack} {
+			for _, v := range st {
+				if len(v) <= 64 {
+					r.held = append(r.held, v)
+					r.was = append(r.was, append([]byte(nil), v...))
+				}
 			}
 		}
 	}
@@ -159,6 +188,10 @@ func libRun(c scriptCase, dbg interpreter.Debugger) (err error, unlockAfter, loc
 	ix := c.idx()
 	tx.Inputs[ix].PreviousTxScript = nil
 	tx.Inputs[ix].PreviousTxSatoshis = 0
+	if c.PrevStale {
+		tx.Inputs[ix].PreviousTxScript = libScript([]byte{0x51})
+		tx.Inputs[ix].PreviousTxSatoshis = amount + staleDelta
+	}
 	// caller-owned buffers
 	lockBuf := append([]byte(nil), c.Lock...)
 	unlockBuf := append([]byte(nil), c.Unlock...)
